@@ -42,6 +42,10 @@ def _assume(term, node, interp):
 def check(ctx):
     P = ctx.P
     N = ctx.normalizer()
+    # the score parameters reach the search: the public classes hand k / recompute_every / tolerance / mixing on unchanged
+    from .C01 import _forwarding
+
+    _forwarding(ctx, rule="R-PARAMS", classes=("CUR", "PCovCUR"), only=("k", "recompute_every", "tolerance", "mixing"))
     # ---------------- NF-PI --------------------------------------------------------
     for pkg, axis, S in (("feature", 1, "M"), ("sample", 0, "N")):
         cls = P.cls(f"skmatter.{pkg}_selection.CUR")
